@@ -272,3 +272,61 @@ def rules(t):
     out = _rules_c09b(t)
     out.append(slices_shape(t))
     return out
+
+
+def release_implies_removal(t):
+    """C09.i (wave 3, seed C09-E): the converse of C09.f(1). A release of `x` bytes is the departure of one stored element: on every path after
+    the release (or before it, in the same iteration) an element leaves one of the accounted containers, and the amount released is what was
+    reserved for that element (`len()` of the element, or its `num_slices * SLICE_SIZE` reservation) - not a piecewise amount."""
+    r = RuleResult("C09.i", "RELEASE=REMOVAL: memory_usage_bytes is decreased only together with the removal of a stored element (on every path), by that element's own reserved amount", floor=8)
+    for adt, containers in PAIRS:
+        stores = list(counter_stores(t, adt))
+        tag = adt.split("::")[-1]
+        for s, k, a in stores:
+            if k != "sub": continue
+            f = s.fn
+            if any(s2 is s and k2 == "add" for s2, k2, a2 in stores): continue      # `usage = usage - reserved + exact`: a re-size of a stored element (C09.g)
+            r.site(s, "release")
+            shr = [g for cont in containers for g in t.effects(cont, SHRINKM, f)]
+            txt = fmt(a) if a is not None else ""
+            if any(m in txt for m in ("::remove(", "::pop_front(", "::pop_first(", "::pop(")) and any(c_ in txt for c_ in containers): pass      # the amount is read from the element being removed
+            else:
+                lp = innermost_loop(f, s.bb)
+                before = [g for g in shr if f.dominates(g.bb, s.bb) and (g.bb != s.bb or g.idx < s.idx) and (lp is None or g.bb in lp[1])]
+                if not before:
+                    ok, w = must_pass(f, pos(s), {pos(g) for g in shr} | err_exits(f))
+                    if not ok: r.bad(f"{f.path}|release-without-removal", s, f"memory_usage_bytes is decreased on a path on which no element leaves {containers}: the budget is given back piecewise/early, and what is given back need not add up to what was reserved")
+            o = strip(a) if a is not None else None
+            shape_ok = isinstance(o, tuple) and ((o[0] == "call" and method_of(o[1]) in ("len", "expect", "unwrap")) or "num_slices" in txt)
+            if not shape_ok: r.bad(f"{f.path}|release-amount", s, f"the released amount is not the stored element's own size/reservation: {txt[:80]}")
+    return r
+
+_rules_c09c = rules
+def rules(t):
+    out = _rules_c09c(t)
+    out.append(release_implies_removal(t))
+    return out
+
+
+def refusal_only_for_new(t):
+    """C09.h (wave 3, seeds C09-F / C02-F): the budget test refuses only something that would be stored. A retransmitted copy of a message the
+    channel already holds is ignored, it never counts against the budget (a transient double count tears the connection down although the
+    accounted memory never exceeds the limit)."""
+    r = RuleResult("C09.h", "NEW-ONLY: Err(ReliableChannelMaxMemoryReached) is returned only on a path on which the message / sliced message was found absent from the channel's stores (duplicates are ignored before the budget test)", floor=2)
+    for fname in ("ReceiveChannelReliable::process_message", "ReceiveChannelReliable::process_slice"):
+        f = t.fn(fname)
+        absent = []
+        for fld in ("messages", "received_messages", "slices"):
+            a, p = map_key_edges(t, f, fld, lambda k: True)
+            absent += a
+        for e in t.aggrs("renet::error::ChannelError", "ReliableChannelMaxMemoryReached", f):
+            r.site(e)
+            if not any(t.edge_dominates(f, ed, e.bb) for ed in absent):
+                r.bad(f"{f.path}|refuses-duplicate", e, f"{short(f.path)} can return ReliableChannelMaxMemoryReached before it has established that the message is not already held: a duplicate (network duplication, or a retransmission after lost acks) arriving while the buffer is nearly full disconnects the peer")
+    return r
+
+_rules_c09d = rules
+def rules(t):
+    out = _rules_c09d(t)
+    out.append(refusal_only_for_new(t))
+    return out
